@@ -14,7 +14,7 @@ import (
 
 func init() {
 	register(&Property{
-		ID: "C17",
+		ID:          "C17",
 		Explanation: "Name normalisation discipline, decided for every query of the index store: (sanitise-before-query) in every exported method of persisters.MetadataPersister that takes a caller-supplied name (name, linkname, oldName, newName) each SQL-builder / generated-model call using that name is dominated by `x = getSanitizedPath(ctx, x)`; for header-valued arguments the row variable's Name is stored from getSanitizedPath before any model call, the single frozen exception being UpsertHeader on the initializing path (the root's own spelling is stored verbatim); (root-shape-agreement) every spelling pathext.IsRoot treats as root is a shape the normaliser's chain handles, and every arm of cache.NewCacheFilesystem decides between the plain and the base-path view through pathext.IsRoot.",
 		NotDecided:  "That a given foreign archive lists and reads back correctly, the behaviour of the five root-inference branches, PAX long names, GNU/ustar format differences.",
 		Assumptions: []string{"getSanitizedPath is the only normaliser"},
